@@ -830,6 +830,7 @@ SCENARIOS = {
     'shrink':     (['encrypt:p'], ['unlock:p', 'decrypt']),         # encrypted -> shorter plain version
     'three':      ([], ['save', 'encrypt:p', 'decrypt']),           # three consecutive saves on a fresh file
     'three-over': (['encrypt:q'], ['unlock:q', 'encrypt:p', 'lock', 'save', 'unlock:p', 'decrypt']),
+    'stale-tmp':  (['save'], ['encrypt:p']),                        # a torn temp file of the same name is lying around
 }
 CRASH_PW = 'ü字 a'
 
@@ -850,6 +851,8 @@ def crash_scenario(env, kind, scenario, journal):
         data = world.file_bytes()
         start_files[PATH] = data
         versions.append(json.loads(data))
+        if scenario == 'stale-tmp':
+            start_files[f'{PATH}.tmp.4242'] = data[:len(data) // 3]
     fs = CrashFS(files=start_files, dirs=['/w'], journal=journal)
     world = env.build(kind, fs=fs, journal=journal)
     if pre:
